@@ -76,9 +76,10 @@ _tls = threading.local()
 
 def get():
     d = getattr(_tls, "d", None)
-    if d is None:
-        d = Driver()
+    if d is None or getattr(_tls, "pid", None) != os.getpid():
+        d = Driver()          # never share a pipe with a forked parent
         _tls.d = d
+        _tls.pid = os.getpid()
     return d
 
 
